@@ -365,5 +365,6 @@ func main() {
 		}
 	}
 	leafRequests(out, r, cfg.N/6+4)
+	rootRequests(out, r, cfg.N/3+10)
 	out.Finish()
 }
